@@ -63,6 +63,9 @@ func checkC01(c *Ctx) {
 	// a change that moves the packet identifier in or out marks the message dirty
 	c.viewsOfDecodeBuffer()
 	c.setQoSMarksDirtyWhenIDAppears()
+	// the granted QoS of each subscriber stays with that subscriber: the node's parallel lists shrink and grow alike
+	c.sremoveContract()
+	c.subscriberIdentityIsEquality()
 	lockBalance(c, func(cl string) bool { return strings.HasPrefix(cl, "topics.") }, "topic-store")
 }
 
